@@ -346,6 +346,7 @@ func vpThreadsAliveDesc() string  { return strings.Join(vpLibGoroutines(), ";") 
 func vpDeadlocked() string        { return "" }
 func vpSetOpt(name string, v int) {}
 func vpRaces() int                { return 0 }
+func vpConcreteStr(s string) (string, bool) { return s, true }
 
 func vpWriteOutcome(path string, outs []vpOutcome) {
 	b, _ := json.MarshalIndent(outs, "", " ")
